@@ -199,7 +199,7 @@ fn td_segment<'a, B: DecisionNNFBuilder<'a>>(b: &'a B, cnfs: &[Cnf], nv: usize, 
     if nv == 0 {
         return;
     }
-    for _ in 0..(2 * nv + 4) {
+    for _ in 0..(4 * nv + 6) {
         let a = rng.below(pool.len());
         let (v, p) = (rng.below(nv), rng.coin());
         let x = pool[a];
